@@ -102,6 +102,15 @@ def symbolic_seq(ex, it, line):
     if isinstance(it, Bound) and it.name == "__enumerate__":
         inner, mk = symbolic_seq(ex, it.obj, line)
         return inner, lambda h, i: Tup([Z(i), mk(h, i)])
+    if isinstance(it, Bound) and it.name == "__zip__" and len(it.obj.items) == 2:
+        # zip of two symbolic lists: driven by the first; the engine asks for equal lengths
+        # (stricter than Python, which stops at the shorter one)
+        a, b = it.obj.items
+        la, mka = symbolic_seq(ex, a, line)
+        lb = ex.to_list(b, line) if not (isinstance(b, Z) and b.t.sort() == S.PyList) else b.t
+        ex.oblige("pre", "zip:equal-length", S.len_l(la) == S.len_l(lb), line,
+                  note="zip over two symbolic lists is modelled for equal lengths only")
+        return la, lambda h, i: Tup([mka(h, i), Z(S.nth(lb, i), origin="element of zip")])
     if isinstance(it, Z) and it.t.sort() == S.Py:
         return ex.to_list(it, line), lambda h, i: Z(h)
     raise Unsupported(f"iteration over {it!r}")
